@@ -485,3 +485,261 @@ def function_regexes(model, fref):
                     pat = pat.pattern
                 out.append((pat, d[3:], node.lineno))
     return out
+
+
+# ---------------------------------------------------------------------------------------------------------
+# writer / reader key tables
+# ---------------------------------------------------------------------------------------------------------
+def gate_term_value(t, version):
+    """evaluate a condition *term* made of version_tuple comparisons at a concrete version; None if it is not one"""
+    if t[0] == "cmp" and len(t[1]) == 1:
+        l, r = t[2]
+        op = t[1][0]
+        mirror = {"<": ">", ">": "<", "<=": ">=", ">=": "<=", "==": "==", "!=": "!="}
+        if r[0] == "attr" and r[2] == "version_tuple":
+            l, r = r, l
+            op = mirror.get(op)
+        if l[0] == "attr" and l[2] == "version_tuple" and r[0] == "tuple" and all(x[0] == "const" for x in r[1]):
+            v = tuple(x[1] for x in r[1])
+            f = {"<": lambda a, b: a < b, ">": lambda a, b: a > b, "<=": lambda a, b: a <= b,
+                 ">=": lambda a, b: a >= b, "==": lambda a, b: a == b, "!=": lambda a, b: a != b}.get(op)
+            if f:
+                return f(version, v)
+    if t[0] == "unary" and t[1] == "not":
+        v = gate_term_value(t[2], version)
+        return None if v is None else (not v)
+    if t[0] == "boolop":
+        vals = [gate_term_value(x, version) for x in t[2]]
+        if any(v is None for v in vals):
+            return None
+        return all(vals) if t[1] == "and" else any(vals)
+    return None
+
+
+def active_at(ev, version):
+    """False if some version gate guarding the event does not hold at ``version``"""
+    for g, pol in ev.guards:
+        v = gate_term_value(g, version)
+        if v is not None and v != pol:
+            return False
+    return True
+
+
+def non_gate_guards(ev):
+    return [g for g in ev.guards if g[0][0] != "exc" and gate_term_value(g[0], (1, 0)) is None]
+
+
+def access_path(t, root):
+    """keys leading from ``root`` to t through subscripts and setdefault() calls; None if t is not such a path"""
+    path = []
+    while True:
+        if t == root:
+            return list(reversed(path))
+        if t[0] == "sub":
+            path.append(t[2])
+            t = t[1]
+        elif t[0] == "call" and t[1][0] == "attr" and t[1][2] == "setdefault" and len(t[2]) == 2:
+            path.append(t[2][0])
+            t = t[1][1]
+        else:
+            return None
+
+
+class Emit(object):
+    __slots__ = ("path", "value", "guards", "loops", "ev", "kind")
+
+    def __init__(self, path, value, guards, loops, ev, kind="store"):
+        self.path = path
+        self.value = value
+        self.guards = guards
+        self.loops = loops
+        self.ev = ev
+        self.kind = kind
+
+    def key(self):
+        return tuple(T.show(p) for p in self.path)
+
+    def __repr__(self):
+        return "<emit %s %s := %s |%s>" % (self.kind, "/".join(T.show(p) for p in self.path), T.show(self.value)[:100],
+                                           [(T.show(g[0])[:60], g[1]) for g in self.guards])
+
+
+def writer_emits(model, fref, out_index=1):
+    """everything a writer puts into its output parameter: [Emit]"""
+    cx = fctx(model, fref)
+    if len(cx.params) <= out_index:
+        raise AnalysisError("%s has no output parameter" % fref.qname)
+    OUT = ("param", cx.params[out_index])
+    emits = []
+    local_items = {}      # (name, alloc) -> [(keypath, value, guards, loops, ev)]
+    attach = []           # (local term, path, guards, loops, ev)
+
+    def add_local_init(loc, prefix, guards, loops, ev):
+        init = loc[3]
+        if init[0] == "dict":
+            for k, v in init[1]:
+                local_items.setdefault(loc[1:3], []).append((prefix + [k], v, guards, loops, ev))
+
+    def local_path(t):
+        """(local, keys) if t is an access path rooted at a local container"""
+        path = []
+        while True:
+            if t[0] == "local":
+                return t, list(reversed(path))
+            if t[0] == "sub":
+                path.append(t[2])
+                t = t[1]
+            elif t[0] == "call" and t[1][0] == "attr" and t[1][2] == "setdefault" and len(t[2]) == 2:
+                path.append(t[2][0])
+                t = t[1][1]
+            else:
+                return None, None
+    seen_init = set()
+    for ev in cx.events:
+        if ev.kind == "bind" and ev.value[0] == "local" and ev.value[1:3] not in seen_init:
+            seen_init.add(ev.value[1:3])
+            add_local_init(ev.value, [], ev.guards, ev.loops, ev)
+    for ev in cx.events:
+        if ev.kind == "store":
+            p = access_path(ev.target, OUT)
+            if p is not None:
+                emits.append(Emit([cx.norm(x) for x in p], cx.norm(ev.value), ev.guards, ev.loops, ev))
+                continue
+            loc, keys = local_path(ev.target)
+            if loc is not None:
+                local_items.setdefault(loc[1:3], []).append((keys, ev.value, ev.guards, ev.loops, ev))
+        elif ev.kind == "call":
+            f = ev.value[1]
+            if f[0] != "attr":
+                continue
+            recv, meth = f[1], f[2]
+            args = ev.value[2]
+            rp = access_path(recv, OUT)
+            if rp is not None:
+                if meth == "set" and len(args) == 3:
+                    emits.append(Emit([cx.norm(args[0]), cx.norm(args[1])], cx.norm(args[2]), ev.guards, ev.loops, ev, "set"))
+                elif meth == "add_section" and len(args) == 1:
+                    emits.append(Emit([cx.norm(args[0])], ("dict", ()), ev.guards, ev.loops, ev, "section"))
+                elif meth == "append" and len(args) == 1:
+                    if args[0][0] == "local":
+                        attach.append((args[0], rp + [("const", "[]")], ev.guards, ev.loops, ev))
+                    else:
+                        emits.append(Emit([cx.norm(x) for x in rp] + [("const", "[]")], cx.norm(args[0]), ev.guards, ev.loops, ev, "append"))
+                elif meth == "setdefault" and len(args) == 2 and args[1][0] == "local":
+                    attach.append((args[1], rp + [args[0]], ev.guards, ev.loops, ev))
+            # nested writers:  x.serialize(<something reaching OUT or a local>)
+            if meth == "serialize" and args:
+                ap = access_path(args[0], OUT)
+                if ap is not None:
+                    emits.append(Emit([cx.norm(x) for x in ap], ("call", f, (), ()), ev.guards, ev.loops, ev, "nested"))
+                else:
+                    loc, keys = local_path(args[0])
+                    if loc is not None:
+                        local_items.setdefault(loc[1:3], []).append((keys, ("call", f, (), ()), ev.guards, ev.loops, ev, "nested"))
+    for loc, path, guards, loops, ev in attach:
+        for item in local_items.get(loc[1:3], []):
+            keys, value, g2, l2, ev2 = item[:5]
+            kind = item[5] if len(item) > 5 else "store"
+            emits.append(Emit([cx.norm(x) for x in path + keys], cx.norm(value), tuple(g2), tuple(l2), ev2, kind))
+    return cx, emits
+
+
+class Read(object):
+    __slots__ = ("attr", "value", "sources", "guards", "loops", "ev", "via")
+
+    def __init__(self, attr, value, sources, guards, loops, ev, via):
+        self.attr = attr
+        self.value = value
+        self.sources = sources      # [(path, access, default, term)]
+        self.guards = guards
+        self.loops = loops
+        self.ev = ev
+        self.via = via              # qualified name of the function containing the store
+
+    def __repr__(self):
+        return "<read self.%s := %s from %s |%s>" % (self.attr, T.show(self.value)[:100],
+                                                    [("/".join(T.show(p) for p in s[0]), s[1]) for s in self.sources],
+                                                    [(T.show(g[0])[:50], g[1]) for g in self.guards])
+
+
+INI_GETTERS = ("get", "getint", "getfloat", "getboolean")
+
+
+def source_accesses(cx, t, IN):
+    """accesses of the input document inside term t: [(path, access, default, term)]
+    access: 'hard' (KeyError / NoOptionError when missing) | 'soft' (default)"""
+    out = []
+    ini = cx.module.name == "treeinfo"      # the input is a ConfigParser, not a dict
+
+    def visit(x):
+        if not isinstance(x, tuple) or not x or x[0] == "const":
+            return
+        # JSON soft:  <path>.get(key, default)
+        if x[0] == "call" and x[1][0] == "attr" and x[1][2] == "get":
+            base = access_path(x[1][1], IN)
+            if base is not None and 1 <= len(x[2]) <= 2 and (x[1][1] != IN or not ini):
+                default = x[2][1] if len(x[2]) == 2 else ("const", None)
+                out.append(([cx.norm(p) for p in base] + [cx.norm(x[2][0])], "soft", default, cx.norm(x)))
+                return
+            # nested soft:  <soft>.get(key, default)
+            inner = []
+            sub_src = source_accesses(cx, x[1][1], IN)
+            if sub_src and x[1][1][0] == "call" and 1 <= len(x[2]) <= 2:
+                p0 = sub_src[0]
+                default = x[2][1] if len(x[2]) == 2 else ("const", None)
+                out.append((p0[0] + [cx.norm(x[2][0])], "soft", default, cx.norm(x)))
+                return
+        # INI:  parser.get*(section, key)
+        if ini and x[0] == "call" and x[1][0] == "attr" and x[1][1] == IN and x[1][2] in INI_GETTERS and len(x[2]) == 2:
+            out.append(([cx.norm(x[2][0]), cx.norm(x[2][1])], "hard", None, cx.norm(x)))
+            return
+        if x[0] == "call" and x[1][0] == "attr" and x[1][1] == IN and x[1][2] == "option_lookup":
+            out.append(([("const", "<lookup>")], "soft", x[2][1] if len(x[2]) > 1 else ("const", None), cx.norm(x)))
+            return
+        # JSON hard:  IN[a][b]
+        if x[0] == "sub":
+            p = access_path(x, IN)
+            if p is not None and p:
+                out.append(([cx.norm(k) for k in p], "hard", None, cx.norm(x)))
+                return
+        for c in T.children(x):
+            visit(c)
+    visit(t)
+    return out
+
+
+def reader_reads(model, fref, in_index=1, version=None, inline=True, _depth=0):
+    """stores into fields of self made by a reader (and by the self.deserialize_* helpers it calls that are active at
+    ``version``): [Read]"""
+    cx = fctx(model, fref)
+    if len(cx.params) <= in_index:
+        raise AnalysisError("%s has no input parameter" % fref.qname)
+    IN = ("param", cx.params[in_index])
+    reads = []
+    for ev in cx.events:
+        if version is not None and not active_at(ev, version):
+            continue
+        if ev.kind == "store":
+            attr = cx.self_attr(ev.target)
+            tgt = ev.target
+            if attr is None:
+                # self.x[...] = v / self.x[...][...] = v
+                base = tgt
+                while base[0] == "sub":
+                    base = base[1]
+                attr = cx.self_attr(base)
+                if attr is None:
+                    continue
+            src = source_accesses(cx, ev.value, IN)
+            reads.append(Read(attr, cx.norm(ev.value), src, non_gate_guards(ev), ev.loops, ev, fref.qname))
+        elif ev.kind == "call":
+            f = ev.value[1]
+            if f == ("global", "setattr") and len(ev.value[2]) == 3 and cx.is_self(ev.value[2][0]):
+                src = source_accesses(cx, ev.value[2][2], IN)
+                reads.append(Read(ev.value[2][1], cx.norm(ev.value[2][2]), src, non_gate_guards(ev), ev.loops, ev, fref.qname))
+            elif inline and f[0] == "attr" and cx.is_self(f[1]) and f[2].startswith("deserialize_") and _depth < 2:
+                lk = fref.cls.lookup(f[2]) if fref.cls else None
+                if lk:
+                    sub = FuncRef(lk[0].module, lk[0], lk[1])
+                    reads.extend(reader_reads(model, sub, in_index, version, inline, _depth + 1))
+    return reads
